@@ -10,7 +10,7 @@ Theorem gen_tap_return_handler : forall last s hl status rs t, 0 <= t < hl ->
   AbstractTAP_tap_return_handler hl status rs (k_cur s) t =
   ((status =? 1), k_cur (k_step last s (KReturn (status =? 1) rs))).
 Proof.
-  intros last [c n d] hl status rs t H. unfold AbstractTAP_tap_return_handler. cbn.
+  intros last [c n d pg] hl status rs t H. unfold AbstractTAP_tap_return_handler. cbn.
   replace (t >=? hl) with false by lia.
   destruct (status =? 1); destruct rs; reflexivity.
 Qed.
@@ -21,30 +21,29 @@ Proof. intros cur hl status rs t H. unfold AbstractTAP_tap_return_handler. repla
 
 Theorem gen_tap_start : forall last s,
   AbstractTAP_tap_start (k_cur s) (k_next s) = (tt, (k_cur (k_step last s KStart), k_next (k_step last s KStart))).
-Proof. intros last [c n d]. unfold AbstractTAP_tap_start, k_step, NOT_STARTED. cbn. destruct (c =? 100); reflexivity. Qed.
+Proof. intros last [c n d pg]. unfold AbstractTAP_tap_start, k_step, NOT_STARTED. cbn. destruct (c =? 100); reflexivity. Qed.
 
 (* the stage progress is re-armed (PENDING = 0) exactly when the chain restarts, and untouched otherwise *)
-Theorem gen_tap_outcome_handler : forall last s rep p,
-  AbstractTAP_tap_outcome_handler (k_cur s) (k_done s) rep (k_next s) p =
-  (tt, (k_cur (k_step last s (KOutcome rep)), k_next (k_step last s (KOutcome rep)),
-        (if ((k_cur s =? SUCCEEDED) || (k_cur s =? FAILED)) && negb (k_done s) && rep then 0 else p),
+Theorem gen_tap_outcome_handler : forall last s rep,
+  AbstractTAP_tap_outcome_handler (k_cur s) (k_done s) rep (k_next s) (k_prog s) =
+  (tt, (k_cur (k_step last s (KOutcome rep)), k_next (k_step last s (KOutcome rep)), k_prog (k_step last s (KOutcome rep)),
         k_done (k_step last s (KOutcome rep)))).
 Proof.
-  intros last [c n d] rep p. unfold AbstractTAP_tap_outcome_handler, k_step, SUCCEEDED, FAILED, NOT_STARTED. cbn.
+  intros last [c n d pg] rep. unfold AbstractTAP_tap_outcome_handler, k_step, SUCCEEDED, FAILED, NOT_STARTED. cbn.
   destruct ((c =? 200) || (c =? 300)); [|reflexivity]. destruct d; [reflexivity|]. destruct rep; reflexivity.
 Qed.
 
 (* _progress_kill_chain: TAP001's last stage is PAYLOAD = 6, TAP003's is EXPLOIT = 5 *)
 Theorem gen_tap001_progress : forall s p,
-  TAP001_progress_kill_chain (k_next s) (k_cur s) p = (tt, (k_cur (k_step 6 s KProgress), k_next (k_step 6 s KProgress), 0)).
+  TAP001_progress_kill_chain (k_next s) (k_cur s) p = (tt, (k_cur (k_step 6 s KProgress), k_next (k_step 6 s KProgress), k_prog (k_step 6 s KProgress))).
 Proof.
-  intros [c n d] p. unfold TAP001_progress_kill_chain, k_step, SUCCEEDED, NOT_STARTED. cbn.
+  intros [c n d pg] p. unfold TAP001_progress_kill_chain, k_step, SUCCEEDED, NOT_STARTED. cbn.
   destruct (n =? 6); [reflexivity|]. destruct (n =? 200); reflexivity.
 Qed.
 Theorem gen_tap003_progress : forall s p,
-  TAP003_progress_kill_chain (k_next s) (k_cur s) p = (tt, (k_cur (k_step 5 s KProgress), k_next (k_step 5 s KProgress), 0)).
+  TAP003_progress_kill_chain (k_next s) (k_cur s) p = (tt, (k_cur (k_step 5 s KProgress), k_next (k_step 5 s KProgress), k_prog (k_step 5 s KProgress))).
 Proof.
-  intros [c n d] p. unfold TAP003_progress_kill_chain, k_step, SUCCEEDED, NOT_STARTED. cbn.
+  intros [c n d pg] p. unfold TAP003_progress_kill_chain, k_step, SUCCEEDED, NOT_STARTED. cbn.
   destruct (n =? 5); [reflexivity|]. destruct (n =? 200); reflexivity.
 Qed.
 
@@ -64,13 +63,13 @@ Qed.
    stage to SUCCEEDED, and keeps it well formed *)
 Theorem source_progress_is_in_stage_order : forall s p, kwf 6 s -> k_cur s <> FAILED -> k_cur s <> SUCCEEDED ->
   let '(_, (c, n, _)) := TAP001_progress_kill_chain (k_next s) (k_cur s) p in
-  kmove 6 (k_cur s) c /\ kwf 6 {| k_cur := c; k_next := n; k_done := k_done s |}.
+  kmove 6 (k_cur s) c /\ kwf 6 {| k_cur := c; k_next := n; k_done := k_done s; k_prog := 0 |}.
 Proof.
   intros s p W H1 H2. rewrite gen_tap001_progress.
   assert (Hl : 2 <= 6 < NOT_STARTED) by (unfold NOT_STARTED; lia).
   assert (Hk : k_cur s = FAILED \/ k_cur s = SUCCEEDED -> KProgress <> KProgress) by (intros [A|A]; contradiction).
   destruct (kill_chain_order 6 s KProgress Hl W Hk) as [M K].
   split; [exact M|]. specialize (K ltac:(discriminate) H1).
-  destruct (k_step 6 s KProgress) as [c n d] eqn:E. cbn [k_cur k_next] in *.
+  destruct (k_step 6 s KProgress) as [c n d pg] eqn:E. cbn [k_cur k_next] in *.
   unfold kwf in *. cbn [k_cur k_next] in *. exact K.
 Qed.
